@@ -1,4 +1,5 @@
 import CoercionModel.Proofs.Engine
+import CoercionModel.Proofs.EnginePlan
 set_option linter.unusedSimpArgs false
 /-
   C01 — Declared order: blocks, then actions of a sequence, each gated on success.
@@ -113,7 +114,27 @@ theorem block_events_scoped (b : MBlock) : ∀ e ∈ (execBlock b).1.evs, evBloc
   · obtain ⟨_, _, _, rfl⟩ := mem_stage h; rfl
   · subst h; rfl
 
+/-! ### the plan level (Proofs/EnginePlan) -/
+
+/-- the plan's stages occur in the order bypass, pre-checks, initial continuous run, blocks (every event
+    of every block), post-checks, deferred checks: post-checks only after all blocks and sequences,
+    deferred checks last -/
+theorem plan_stage_order (p : MPlan) : ((runPlan p).out.evs.map planRank).Pairwise (· ≤ ·) :=
+  Engine.plan_stage_order p
+
+/-- nothing of any block happens unless the plan's bypass did not pass and its pre-checks (and the
+    initial continuous run) passed -/
+theorem blocks_gated (p : MPlan) (e : Ev) (he : e ∈ (blockStage (planBlocksRun p) p).1.evs) :
+    planBypassed p = false ∧ planPreOk p = true :=
+  Engine.blocks_gated p e he
+
 /-! ### non-vacuity -/
+def exPlan : MPlan :=
+  { pre := some { idx := 20, actions := [{ idx := 21 }] }, post := some { idx := 30, actions := [{ idx := 31 }] },
+    deferred := some { idx := 32, actions := [{ idx := 33 }] },
+    blocks := [{ idx := 1, seqs := [{ idx := 4, actions := [{ idx := 5 }] }] }] }
+example : (runPlan exPlan).out.evs.map planRank = [1, 3, 3, 4, 5] := by decide
+
 def failing : MAction := { idx := 9, script := [{ resp := .none, err := .permanent }] }
 def exBlock : MBlock :=
   { idx := 1, pre := some { idx := 2, actions := [{ idx := 3 }] },
